@@ -6,13 +6,13 @@ CHECKS = {
          "Seeded search over histories x GC placements x session boundaries (~40 s quick, 600 s thorough, 16 processes). A clean batch is evidence, not proof; strength comes from the independent raw-h5py reader, the reference model and thousands of distinct interleavings per batch.", "5 C01"),
  "C02": ("exploration", "world machine; independent structural validator (rules R1-R11) on every closed file",
          "Same histories as C01 including removals through both entry points, re-parenting, cross-workspace copies and drillhole groups; every close along the way is validated with sim/rawgeoh5.validate, written from the format documentation without importing geoh5py.", "5 C02"),
- "C05": ("exploration", "world machine, removal-heavy; lookups/listings of removed identifiers, RAW absence at every close, survivors equal the model, refused removals change nothing",
+ "C05": ("exploration", "world machine (removal-heavy) + concat machine (concatenated holes and data); lookups/listings of removed identifiers, RAW absence at every close, survivors equal the model, refused removals change nothing",
          "Seeded search over trees x removed entity x entry point x references held or dropped x GC placement x follow-up operations.", "5 C05"),
  "C06": ("exploration", "world machine, identifier-heavy; explicit identifier reuse in six classes, copy identifier rules, uniqueness LIVE after every creating event and RAW at every close",
          "Seeded search over create / copy / remove / re-create sequences across one or two workspaces with caller-supplied identifiers that are fresh, in use (same kind, other kind, property group, root) or belong to removed entities.", "5 C06"),
- "C09": ("exploration", "world machine; RAW per-node sub-digest diff around every single event must lie within what the operation may touch; boundaries without mutation change nothing",
+ "C09": ("exploration", "world machine + concat machine (row slices of other holes); RAW per-node sub-digest diff around every single event must lie within what the operation may touch; boundaries without mutation change nothing",
          "Every event of every history is judged, including non-mutating ones (observe, lookups, listings, GC, close/re-open).", "5 C09"),
- "C12": ("exploration", "world machine, copy-heavy; identifier-free subtree signatures of copy and source, source LIVE unchanged at copy time and after every later edit of either side",
+ "C12": ("exploration", "world machine (copy-heavy) + concat machine (hole and drillhole-group copies, same and other workspace); identifier-free subtree signatures of copy and source, source LIVE unchanged at copy time and after every later edit of either side",
          "Seeded search over entity class x target (same parent, other group, other workspace) x copy_children x clear_cache x later edits of copy or source.", "5 C12"),
 }
 NA = {
@@ -22,7 +22,7 @@ NA = {
  "C16": "pure function of the list of inputs to merge (quantifier: inputs only)",
  "C17": "formula conformance over inputs and configurations; the one history-dependent aspect (stale centroid cache after a setter) is covered by C03's LIVE-vs-REOPEN differential",
 }
-PENDING = ["C03", "C04", "C07", "C10", "C11", "C15", "C18", "C19", "C20"]
+PENDING = ["C03", "C07", "C10", "C11", "C15", "C18", "C19", "C20"]
 
 def main():
     import importlib.util, os
